@@ -140,18 +140,20 @@ def ob_point_crop_defaults(timeout):
 
 def ob_tg_crop(mode, rebase, timeout):
     """Textgrid.crop over an interval tier (1 entry) and a point tier (1 entry)."""
-    names = ["a", "b", "hi", "s0", "e0", "t0"]
+    names = ["a", "b", "hi", "s0", "e0", "t0", "tlo", "thi"]
 
-    def pre(a, b, hi, s0, e0, t0):
+    def pre(a, b, hi, s0, e0, t0, tlo, thi):
         return (
-            ivs_wf_pre(0.0, hi, s0, e0)
+            ivs_wf_pre(tlo, thi, s0, e0)
             & within(0.0, hi, t0, a, b)
+            & (0.0 <= tlo)
+            & (thi <= hi)
             & (hi <= 1000.0)
             & (a < b)
         )
 
-    def body(a, b, hi, s0, e0, t0):
-        it = IntervalTier("i", [Interval(s0, e0, "x")], 0.0, hi)
+    def body(a, b, hi, s0, e0, t0, tlo, thi):
+        it = IntervalTier("i", [Interval(s0, e0, "x")], tlo, thi)  # the tier's own span may be narrower
         pt = PointTier("p", [Point(t0, "q")], 0.0, hi)
         tg = Textgrid(0.0, hi)
         tg.addTier(it)
@@ -190,7 +192,7 @@ def ob_tg_crop(mode, rebase, timeout):
         fmode="real",
         timeout=timeout,
         funcs=FUNCS,
-        bounds="2 tiers (1 interval, 1 point), window inside the span",
+        bounds="3 tiers (1 interval with its own span inside the textgrid span, 1 point, 1 empty), window inside the textgrid span",
     )
 
 
